@@ -73,6 +73,12 @@ SPECS_K = [
     ('T5', [['TA/H1=', V1], ['Ka=y']]), ('T5', [['kC/', W2, '=7']]),
 ]
 
+# a schema with a schema-level datatype (S14 wraps the whole configuration): the result of a load with
+# overrides is what that datatype returns, like without them
+TEXTS['T14'] = ('S14', [('kv', 'kx', 'x'), ('sec', 'ta', 'n1', [('kv', 'ka', 'a')]), ('sec', 'tb', 'sb', [('kv', 'kb', 'b')]),
+                        ('kv', 'zz', 'any')])
+SPECS_K += [('T14', [[W2, '=', V1]]), ('T14', [['n1/ka=', V1], ['sb/kb=q']]), ('T14', [['ta/', W2, '=', V1]])]
+
 # '%import' lines are carried as ('raw', line, None) items: rendered verbatim, never edited
 TEXTS['I1'] = ('I12', [('raw', '%import vfq_a', None),
                        ('sec', 'pa', 'n1', [('kv', 'ka', '1')]),
